@@ -385,4 +385,62 @@ theorem findRedirectsOrd_id_strip (t : Tree) :
   rw [findRedirectsOrd_id, findRedirectsOrd_id, sourceFiles_strip, List.flatMap_map]
   exact flatMap_congr_mem _ _ _ fun x hx => fileRedirects_strip x (sourceFiles_source t x hx)
 
+/-! ### canonical form -/
+
+theorem insertByName_of_le {α : Type} (x : String × α) :
+    ∀ (l : List (String × α)), (∀ y ∈ l, x.1 ≤ y.1) → insertByName x l = x :: l
+  | [], _ => rfl
+  | y :: ys, h => by
+    unfold insertByName
+    rw [if_neg (String.not_lt.2 (h y List.mem_cons_self))]
+
+theorem sortByName_of_ascending {α : Type} : ∀ (l : List (String × α)), Ascending l → sortByName l = l
+  | [], _ => rfl
+  | x :: xs, h => by
+    unfold Ascending at h
+    rw [List.pairwise_cons] at h
+    unfold sortByName
+    rw [sortByName_of_ascending xs h.2]
+    exact insertByName_of_le x xs h.1
+
+theorem sortByName_idem {α : Type} (l : List (String × α)) : sortByName (sortByName l) = sortByName l :=
+  sortByName_of_ascending _ (sortByName_ascending l)
+
+theorem walkKeyed_insertEntry (dirs : List String) (x : Entry) : (l : List Entry) →
+    walkKeyed dirs (insertEntry x l) = insertByName (x.name, walkEntry dirs x) (walkKeyed dirs l)
+  | [] => by simp [insertEntry, walkKeyed, insertByName]
+  | y :: ys => by
+    simp only [insertEntry, walkKeyed, insertByName]
+    split
+    · rw [walkKeyed, walkKeyed_insertEntry dirs x ys]
+    · simp only [walkKeyed]
+
+theorem walkKeyed_sortEntries (dirs : List String) : (l : List Entry) →
+    walkKeyed dirs (sortEntries l) = sortByName (walkKeyed dirs l)
+  | [] => rfl
+  | x :: xs => by
+    simp only [sortEntries, walkKeyed, sortByName]
+    rw [walkKeyed_insertEntry, walkKeyed_sortEntries dirs xs]
+
+theorem Entry.canon_name (e : Entry) : e.canon.name = e.name := by
+  cases e <;> simp [Entry.canon, Entry.name]
+
+mutual
+theorem walkEntry_canon (dirs : List String) : (e : Entry) → walkEntry dirs e.canon = walkEntry dirs e
+  | .file f => by simp [Entry.canon]
+  | .dir n es => by
+    simp only [Entry.canon, walkEntry]
+    rw [walkKeyed_sortEntries, sortByName_idem, walkKeyed_canon (dirs ++ [n]) es]
+theorem walkKeyed_canon (dirs : List String) : (es : List Entry) →
+    walkKeyed dirs (canonList es) = walkKeyed dirs es
+  | [] => by simp [canonList]
+  | e :: es => by
+    simp only [canonList, walkKeyed]
+    rw [walkEntry_canon dirs e, walkKeyed_canon dirs es, Entry.canon_name]
+end
+
+theorem sourceFiles_canonical (t : Tree) : sourceFiles (canonical t) = sourceFiles t := by
+  unfold sourceFiles canonical
+  rw [walkKeyed_sortEntries, sortByName_idem, walkKeyed_canon]
+
 end Firefly.Redirects
